@@ -101,10 +101,13 @@ Let th0 := sr_th0 t0 line0.
 Let Tend := sr_lrun ls (None, th0).
 Hypothesis Hlim0 : (length line0 + 2 <= g_field_limit_hard g)%nat.
 Hypothesis Hfit : sr_ffit (g_field_limit_hard g) (sr_p11 th0) None ls = true.
-Let bwt := sg_fwire ls ++ [CR; LF] ++ [].
+Variable body : bytes.                                     (* what follows the empty line (T1: nothing) *)
+Let bwt := sg_fwire ls ++ [CR; LF] ++ body.
 Definition tc_wire : bytes := (line0 ++ [CR; LF]) ++ bwt.
 (* the transaction when the response is complete *)
 Definition tc_tdone : tx := tn_tcomplete (Tend <| t_res_cep := c_HTP_COMPRESSION_NONE |>).
+
+Hypothesis Hb0 : body = [].                                (* a 2xx answer to CONNECT has no body *)
 
 Lemma tc_Tend_facts : (t_request_method_number Tend =? c_HTP_M_CONNECT) = true /\ t_response_status_number Tend = wr_status_value s /\
   (t_request_progress Tend =? c_HTP_REQUEST_COMPLETE) = false /\ t_response_progress Tend = c_HTP_RESPONSE_HEADERS.
@@ -130,7 +133,7 @@ Proof.
   split; [rewrite B; exact S4|exact C].
 Qed.
 
-Notation tc_tt rq := (tt_betw g (w := tc_w rq) ps s r ls t0 []).
+Notation tc_tt rq := (tt_betw g (w := tc_w rq) ps s r ls t0 body).
 
 (* the states between two calls of the response phase *)
 Inductive tc_betw (c : connp) (rw : bytes) : Prop :=
@@ -155,10 +158,10 @@ Proof.
   left. split; [exact Hne|]. rewrite Er. exact B.
 Qed.
 Lemma tc_Ktail rq c c1 d rd1 (rw' : bytes) fuel : True -> c_out_state c = RES_HEADERS -> rs_state_fn cb g RES_HEADERS c = (ST_OK, c1) ->
-  tr_cinw (tc_w rq) c1 d rd1 [] None RES_BODY_DETERMINE (Some RES_HEADERS) (Some H_RESPONSE_HEADER_DATA) Tend -> skipn rd1 d ++ rw' = [] ->
+  tr_cinw (tc_w rq) c1 d rd1 [] None RES_BODY_DETERMINE (Some RES_HEADERS) (Some H_RESPONSE_HEADER_DATA) Tend -> skipn rd1 d ++ rw' = body ->
   (8 * (length d - rd1) + 16 <= fuel)%nat -> tc_goal rq d c fuel rw'.
 Proof.
-  intros _ Es Ef H1 Hw Hf. apply app_eq_nil in Hw. destruct Hw as [Hs Hrw].
+  intros _ Es Ef H1 Hw Hf. rewrite Hb0 in Hw. apply app_eq_nil in Hw. destruct Hw as [Hs Hrw].
   assert (Erd : rd1 = length d) by (pose proof (sg_skipn_nil _ _ Hs); pose proof (ti_rd _ _ _ _ _ _ _ _ _ H1); lia). subst rd1.
   destruct tc_Tend_facts as (M & S4 & Rq & Rp).
   rewrite <- Es in Ef. destruct (tr_iter_ok cb g c c1 d _ _ _ _ _ _ _ Ef H1) as (c2 & E2 & H2); [discriminate|].
@@ -177,16 +180,16 @@ Lemma tc_step c (rw x rw' : bytes) : tc_betw c rw -> x <> [] -> rw = x ++ rw' ->
   exists cF, connp_res_data cb g (Some x) (length x) c = (cF, c_HTP_STREAM_DATA) /\ k_read (c_out cF) = length x /\ tn_rq cF = tn_rq c /\ tc_post cF rw'.
 Proof.
   intros B Hne Ex.
-  assert (Hokd : forall d0 rw0 : bytes, True -> sr_f1_local [] (negb (sr_is_nil ls)) d0 rw0) by (intros; exact I).
+  assert (Hokd : forall d0 rw0 : bytes, True -> sr_f1_local body (negb (sr_is_nil ls)) d0 rw0) by (intros; rewrite Hb0; exact I).
   destruct B as [Wf Hr Erw|Wf Hb].
   - destruct (tr_enter_ready cb g _ c t0 x Hr Hne) as (c1 & E1 & H1 & _). rewrite E1.
     assert (Lx : (0 < length x)%nat) by (destruct x; [contradiction|cbn; lia]).
-    apply (tt_run_idle cb g Hcb ps s r ls t0 [] Wl Okl Hnp0 H09 Hlim0 Hfit (fun _ _ => True) Hokd (tc_goal (tn_rq c))
+    apply (tt_run_idle cb g Hcb ps s r ls t0 body Wl Okl Hnp0 H09 Hlim0 Hfit (fun _ _ => True) Hokd (tc_goal (tn_rq c))
              (tc_Hstep (tn_rq c)) (tc_Hexit (tn_rq c)) (tc_Ktail (tn_rq c)) c1 x 0%nat [] (line0 ++ [CR; LF]) _ rw' _ I H1 Lx eq_refl).
     + intro E. apply app_eq_nil in E. destruct E as [_ E]. discriminate.
     + cbn [skipn]. rewrite <- Ex. exact Erw.
     + unfold rs_res_fuel. lia.
-  - destruct (tt_step cb g Hcb ps s r ls t0 [] Wl Okl Hnp0 Hlim0 Hfit (fun _ _ => True) Hokd (tc_goal (tn_rq c))
+  - destruct (tt_step cb g Hcb ps s r ls t0 body Wl Okl Hnp0 Hlim0 Hfit (fun _ _ => True) Hokd (tc_goal (tn_rq c))
                (tc_Hstep (tn_rq c)) (tc_Hexit (tn_rq c)) (tc_Ktail (tn_rq c)) c rw x rw' Hb Hne Ex I) as (c1 & E1 & G1).
     rewrite E1. exact G1.
 Qed.
@@ -201,20 +204,22 @@ Qed.
 (* ---- a request call while the status line is incomplete ---- *)
 Lemma tc_refused_step c rw (x : bytes) : tc_betw c rw -> (length bwt < length rw)%nat -> x <> [] ->
   connp_req_data cb g (Some x) (length x) c = (tn_refused_st x c, c_HTP_STREAM_DATA_OTHER) /\ tc_betw (tn_fin (tn_refused_st x c)) rw /\
-  c_in_status (tn_refused_st x c) = c_HTP_STREAM_DATA_OTHER /\ k_read (c_in (tn_refused_st x c)) = 0%nat.
+  c_in_status (tn_refused_st x c) = c_HTP_STREAM_DATA_OTHER /\ k_read (c_in (tn_refused_st x c)) = 0%nat /\
+  c_in_content_length (tn_fin (tn_refused_st x c)) = c_in_content_length c.
 Proof.
   intros B Hlen Hne.
+  assert (Hc : forall y, c_in_content_length (tn_fin (tn_refused_st x y)) = c_in_content_length y) by (intros y; unfold tn_refused_st; destruct (c_out_status (tn_req_reg x y) =? c_HTP_STREAM_DATA_OTHER); reflexivity).
   assert (Hk : forall y, k_read (c_in (tn_refused_st x y)) = 0%nat) by (intros y; unfold tn_refused_st; destruct (c_out_status (tn_req_reg x y) =? c_HTP_STREAM_DATA_OTHER); reflexivity).
   assert (Hs : forall y, c_in_status (tn_refused_st x y) = c_HTP_STREAM_DATA_OTHER) by (intros y; reflexivity).
   destruct B as [Wf Hr Erw|Wf Hb].
   - destruct (tn_rq_proj _ _ (eq_refl (tn_rq c))) as (Q1 & Q2 & _ & _ & Q5 & _). destruct Wf as [A1 A2 A3 A4 A5 A6 A7 A8]. rewrite <- Q2 in A1. rewrite <- Q5 in A2. rewrite <- Q1 in A3.
     assert (Tg : tx_get c 0 = t0) by (unfold tx_get, tx_slot; rewrite (ty_shift _ _ _ Hr), (ty_txs _ _ _ Hr); reflexivity).
-    split; [apply (tn_refused cb g x c 0 A1 A2); [rewrite Tg; exact Hrp|exact A3|exact Hne]|]. split; [|split; [apply Hs|apply Hk]].
+    split; [apply (tn_refused cb g x c 0 A1 A2); [rewrite Tg; exact Hrp|exact A3|exact Hne]|]. split; [|split; [apply Hs|split; [apply Hk|apply Hc]]].
     apply CB_idle; [apply tc_refused_frame; constructor; assumption|apply (tc_refused_rest x c t0 (tn_rq c) Hr)|exact Erw].
   - destruct (tn_rq_proj _ _ (eq_refl (tn_rq c))) as (Q1 & Q2 & _ & _ & Q5 & _). pose proof Wf as [A1 A2 A3 A4 A5 A6 A7 A8]. rewrite <- Q2 in A1. rewrite <- Q5 in A2. rewrite <- Q1 in A3.
     destruct Hb as [p q Hm' Hpq Hq Erw|p hdr t Hm' Hl Hbd]; [|unfold bwt in Hlen; lia].
     assert (Tg : tx_get c 0 = sr_tx_start t0) by (unfold tx_get, tx_slot; rewrite (tm_shift _ _ _ _ _ _ Hm'), (tm_txs _ _ _ _ _ _ Hm'); reflexivity).
-    split; [apply (tn_refused cb g x c 0 A1 A2); [rewrite Tg; cbn; lia|exact A3|exact Hne]|]. split; [|split; [apply Hs|apply Hk]].
+    split; [apply (tn_refused cb g x c 0 A1 A2); [rewrite Tg; cbn; lia|exact A3|exact Hne]|]. split; [|split; [apply Hs|split; [apply Hk|apply Hc]]].
     apply CB_in; [apply tc_refused_frame; exact Wf|]. apply (TW_line _ _ _ _ _ _ _ _ _ p q); [apply (tc_refused_mid x c _ _ _ _ _ (tn_rq c) Hm')|exact Hpq|exact Hq|exact Erw].
 Qed.
 
@@ -240,14 +245,15 @@ Proof. intros [_ _ [E|E] _ _ _ _ _]; rewrite E; intro X; vm_compute in X; discri
 Lemma tc_refs : forall (refs : list bytes) c rw, tc_betw c rw -> (refs = [] \/ (length bwt < length rw)%nat) -> Forall (fun x : bytes => x <> []) refs ->
   tc_betw (fst (cp_run cb g c (map OpReqData refs))) rw /\
   map tn_o (snd (cp_run cb g c (map OpReqData refs))) = map (fun _ : bytes => (c_HTP_STREAM_DATA_OTHER, 0%nat)) refs /\
-  Forall tn_rquiet (snd (cp_run cb g c (map OpReqData refs))).
+  Forall tn_rquiet (snd (cp_run cb g c (map OpReqData refs))) /\
+  c_in_content_length (fst (cp_run cb g c (map OpReqData refs))) = c_in_content_length c.
 Proof.
-  induction refs as [|x refs IH]; intros c rw B Hl Hall; [cbn [map cp_run fst snd]; split; [exact B|split; [reflexivity|constructor]]|].
+  induction refs as [|x refs IH]; intros c rw B Hl Hall; [cbn [map cp_run fst snd]; split; [exact B|split; [reflexivity|split; [constructor|reflexivity]]]|].
   destruct Hl as [Hl|Hl]; [discriminate|]. pose proof (Forall_inv Hall) as Hx. pose proof (Forall_inv_tail Hall) as Hall'.
   cbn [map]. rewrite tn_run_cons. cbn [fst snd]. rewrite tn_step_req.
-  destruct (tc_refused_step c rw x B Hl Hx) as (E & B' & Hs & Hk). unfold bytes in E |- *. rewrite E. cbn [fst snd].
-  destruct (IH _ rw B' (or_intror Hl) Hall') as (B2 & O2 & Q2).
-  split; [exact B2|]. split.
+  destruct (tc_refused_step c rw x B Hl Hx) as (E & B' & Hs & Hk & Hc). unfold bytes in E |- *. rewrite E. cbn [fst snd].
+  destruct (IH _ rw B' (or_intror Hl) Hall') as (B2 & O2 & Q2 & C2).
+  split; [exact B2|]. split; [|split; [|exact (eq_trans C2 Hc)]].
   - cbn [map]. f_equal; [|exact O2]. unfold tn_o, tn_res, finish_call. cbn [snd r_rc r_consumed]. rewrite Hk. reflexivity.
   - constructor; [|exact Q2]. unfold tn_rquiet, tn_res, finish_call. cbn [snd r_in_status]. rewrite Hs. intro X; vm_compute in X; discriminate.
 Qed.
@@ -271,7 +277,7 @@ Proof.
     change (tc_ops ((refs, x) :: rest)) with ((map OpReqData refs ++ [OpResData x]) ++ tc_ops rest).
     change (tc_expect ((refs, x) :: rest)) with ((map (fun _ : bytes => (c_HTP_STREAM_DATA_OTHER, 0%nat)) refs ++ [(c_HTP_STREAM_DATA, length x)]) ++ tc_expect rest).
     rewrite tn_run_app. cbn [fst snd]. rewrite (tn_run_app cb g (map OpReqData refs)). cbn [fst snd].
-    destruct (tc_refs refs c rw B Hr1 Hrefs) as (B1 & O1 & Q1).
+    destruct (tc_refs refs c rw B Hr1 Hrefs) as (B1 & O1 & Q1 & _).
     set (c1 := fst (cp_run cb g c (map OpReqData refs))) in *.
     rewrite tn_run_cons. cbn [cp_run fst snd]. rewrite tn_step_res.
     destruct (tc_step c1 rw x (concat (map snd rest)) B1 Hx (eq_sym Hc)) as (c2 & E2 & K2 & R2 & P2).
